@@ -1066,6 +1066,7 @@ def make_world():
         m.__file__ = path + ".py"
         m.__package__ = name.rpartition(".")[0]
         mods[name] = m
+        sys.modules[name] = m  # dataclasses/typing look modules up by name
         src = open(path + ".py").read()
         g = m.__dict__
         g["__builtins__"] = dict(vars(builtins), __import__=imp)
@@ -1080,6 +1081,25 @@ def make_world():
 
         def __call__(self, *a, **k):
             return None
+
+    def _reexport(pkg, attr):
+        """package __init__ is not executed; resolve `from X import attr` re-exports lazily from its AST"""
+        import ast, os
+
+        ini = REPO + "/" + pkg.replace(".", "/") + "/__init__.py"
+        if not os.path.isfile(ini):
+            return None
+        for node in ast.walk(ast.parse(open(ini).read())):
+            if isinstance(node, ast.ImportFrom):
+                for al in node.names:
+                    if (al.asname or al.name) == attr:
+                        mod = node.module or ""
+                        if node.level:
+                            base = pkg.split(".")
+                            base = base[: len(base) - (node.level - 1)]
+                            mod = ".".join(base + ([mod] if mod else []))
+                        return mod, al.name
+        return None
 
     def imp(name, globals=None, locals=None, fromlist=(), level=0):
         if level:
@@ -1103,7 +1123,15 @@ def make_world():
                         try:
                             setattr(m, f, load(name + "." + f))
                         except ImportError:
-                            pass
+                            src = _reexport(name, f)
+                            if src is not None:
+                                setattr(m, f, getattr(imp(src[0], None, None, (src[1],), 0), src[1]))
+                            elif hasattr(m, "__path__"):
+                                # defined in the body of an unexecuted package __init__ (e.g. get_env)
+                                def _deferred(*a, _n=name + "." + f, **k):
+                                    raise Unsupported("deferred package-level name " + _n)
+
+                                setattr(m, f, _deferred)
                 return m
             return load(top) if "." in name else m
         return real_import(name, globals, locals, fromlist, level)
